@@ -68,7 +68,10 @@ def install(I):
         return False
 
     # ------------------------------------------------------------------ abstract text/binary stream
-    Stream = mkcls("TextIOWrapper")
+    IOBase = mkcls("IOBase")
+    TextIOBase = mkcls("TextIOBase", IOBase)
+    E["io.TextIOBase"] = TextIOBase
+    Stream = mkcls("TextIOWrapper", TextIOBase)
     E["io.TextIOWrapper"] = Stream
     I.StreamCls = Stream
 
@@ -164,7 +167,7 @@ def install(I):
     E["re.compile"] = Builtin("re.compile", _re_compile)
     RePat.ns["match"] = Builtin("Pattern.match", lambda i, a, k: a[0].fields["model"].match(i, a[1]))
     E["io.UnsupportedOperation"] = ns["UnsupportedOperation"]
-    E["io.IOBase"] = Stream
+    E["io.IOBase"] = IOBase
     E["typing.IO"] = Stream
 
     # ------------------------------------------------------------------ misc stdlib
